@@ -112,10 +112,12 @@ static const Op OPS[] = {
   OPZ(mpz_get_str, "=Z", true, r.sv.push_back(take_str(mpz_get_str(nullptr, (a.base & 64) && nbase(a) <= 36 ? -nbase(a) : nbase(a), Z0))), 0),
   OPZ(mpz_get_str_buf, "=Z", true, { int b = nbase(a); size_t n = mpz_sizeinbase(Z0, b) + 2; char* p = (char*)malloc(n); mpz_get_str(p, b, Z0); r.sv.push_back(std::string(p, strnlen(p, n))); free(p); }, 0),
   OPZ(mpz_out_str, "=Z", true, { char* m = nullptr; size_t ml = 0; FILE* fp = open_memstream(&m, &ml); RI(mpz_out_str(fp, nbase(a), Z0)); fclose(fp); r.sv.push_back(std::string(m, ml)); free(m); }, F_STDIO),
-  OPZ(mpz_inp_str, "Z=", true, { std::string s = a.str + " "; FILE* fp = fmemopen((void*)s.data(), s.size(), "r"); RI(mpz_inp_str(Z0, fp, (int)((unsigned)a.base % 63) == 1 ? 0 : (int)((unsigned)a.base % 63))); fclose(fp); if (r.iv.back() == 0) mpz_set_ui(Z0, 0); }, F_STDIO),
+  OPZ(mpz_inp_str, "Z=", true, { std::string s = a.str + " "; FILE* fp = fmemopen((void*)s.data(), s.size(), "r"); RI(mpz_inp_str(Z0, fp, (int)((unsigned)a.base % 63) == 1 ? 0 : (int)((unsigned)a.base % 63))); fclose(fp); if (r.iv.back() == 0) { if (const char* e = gen::mpz_illformed(Z0)) r.sv.push_back(std::string("ILL-FORMED destination after a failed read: ") + e); mpz_set_ui(Z0, 0); } }, F_STDIO),
   OPZ(mpz_out_raw, "=Z", true, { char* m = nullptr; size_t ml = 0; FILE* fp = open_memstream(&m, &ml); RI(mpz_out_raw(fp, Z0)); fclose(fp); r.sv.push_back(std::string(m, ml)); free(m); }, F_STDIO),
   OPZ(mpz_out_raw_inp_raw, "Z=Z", true, { char* m = nullptr; size_t ml = 0; FILE* fp = open_memstream(&m, &ml); mpz_out_raw(fp, Z1); fclose(fp); FILE* fi = fmemopen(m, ml, "r"); RI(mpz_inp_raw(Z0, fi)); fclose(fi); free(m); }, F_STDIO),
-  OPZ(mpz_inp_raw_garbage, "Z=", true, { std::string s = a.str; if (s.size() >= 4) { s[0] = 0; s[1] = 0; s[2] &= 3; } FILE* fp = fmemopen((void*)(s.empty() ? "x" : s.data()), s.empty() ? 1 : s.size(), "r"); if (s.empty()) fgetc(fp); size_t n = mpz_inp_raw(Z0, fp); fclose(fp); RI(n); if (n == 0) mpz_set_ui(Z0, 0); }, F_STDIO),
+  OPZ(mpz_inp_raw_garbage, "Z=", true, { std::string s = a.str; if (s.size() >= 4) { s[0] = 0; s[1] = 0; s[2] &= 3; } FILE* fp = fmemopen((void*)(s.empty() ? "x" : s.data()), s.empty() ? 1 : s.size(), "r"); if (s.empty()) fgetc(fp); size_t n = mpz_inp_raw(Z0, fp); fclose(fp); RI(n); if (n == 0) { if (const char* e = gen::mpz_illformed(Z0)) r.sv.push_back(std::string("ILL-FORMED destination after a failed read: ") + e); mpz_set_ui(Z0, 0); } }, F_STDIO),
+  OPZ(mpz_inp_raw_truncated, "Z=Z", true, { char* m = nullptr; size_t ml = 0; FILE* fp = open_memstream(&m, &ml); mpz_out_raw(fp, Z1); fclose(fp); size_t cut = (a.base & 1) ? ml : (size_t)(a.u[2] % (ml + 1)); if (cut == 0) cut = 1; FILE* fi = fmemopen(m, cut, "r"); size_t n = mpz_inp_raw(Z0, fi); fclose(fi); free(m); RI(n);
+    if (n == 0) { if (const char* e = gen::mpz_illformed(Z0)) r.sv.push_back(std::string("ILL-FORMED destination after a failed read: ") + e); mpz_set_ui(Z0, 0); } }, F_STDIO),
   OPZ(mpz_export_import, "Z=Z", true, { size_t sz = 1 + a.u[2] % 9; size_t nails = (a.u[1] >> 8) % (8 * sz); int order = (a.u[1] & 1) ? 1 : -1; int endian = (int)((a.u[1] >> 1) % 3) - 1; size_t cnt = 0; size_t numb = 8 * sz - nails; size_t need = (mpz_sizeinbase(Z1, 2) + numb - 1) / numb;
       void* p = malloc(need * sz ? need * sz : 1); mpz_export(p, &cnt, order, sz, endian, nails, Z1); RI(cnt); int sg = mpz_sgn(Z1); mpz_import(Z0, cnt, order, sz, endian, nails, p); if (sg < 0) mpz_neg(Z0, Z0); free(p); }, 0),
   OPZ(mpz_export_alloc, "=Z", true, { size_t cnt = 0; void* p = mpz_export(nullptr, &cnt, 1, 8, 0, 0, Z0); RI(cnt); if (p) { void (*fr)(void*, size_t); mp_get_memory_functions(nullptr, nullptr, &fr); fr(p, cnt * 8); } }, 0),
